@@ -669,6 +669,12 @@ class ListCell(Cell):
       if isinstance(oc, ListCell):
         a, b = (oc.seq, self.seq) if reflected else (self.seq, oc.seq)
         return ctx.alloc(ListCell(z3.Concat(a, b), self.codec))
+      if isinstance(oc, PyListCell):
+        o = z3.Empty(self.seq.sort())
+        for x in oc.items:
+          o = z3.Concat(o, z3.Unit(self.codec.enc(x)))
+        a, b = (o, self.seq) if reflected else (self.seq, o)
+        return ctx.alloc(ListCell(z3.Concat(a, b), self.codec))
     raise Unsupported(f'list {op}')
 
   def havoc(self, ctx, base):
@@ -701,21 +707,43 @@ class PyListCell(Cell):
         raise Unsupported('symbolic slice of a concrete list')
       return ctx.alloc(PyListCell(self.items[idx.lo:idx.hi]))
     if is_z3(idx):
-      idx = z3.simplify(idx)
-      if z3.is_int_value(idx):
-        idx = idx.as_long()
-      else:
-        raise Unsupported('symbolic index into concrete list')
+      idx = self._concretize(ctx, idx, 'load')
     if not -len(self.items) <= idx < len(self.items):
       ctx.oblige('index.load', False, kind='definedness',
                  detail='IndexError on concrete list')
       raise PathDead()
     return self.items[idx]
 
+  def _concretize(self, ctx, idx, what):
+    """A symbolic index into a list of known length: finite case split."""
+    s = z3.simplify(idx)
+    if z3.is_int_value(s):
+      return s.as_long()
+    n = len(self.items)
+    ctx.oblige(f'index.{what}', z3.And(idx >= -n, idx < n), kind='definedness',
+               detail='IndexError: list index out of range')
+    for j in range(n):
+      if ctx.branch(z3.Or(idx == j, idx == j - n)):
+        return j
+    raise PathDead()
+
+  def havoc(self, ctx, base):
+    c = self.clone()
+    items = []
+    for i, v in enumerate(self.items):
+      if isinstance(v, Ref):
+        items.append(ctx.alloc(v.cell(ctx).havoc(ctx, f'{base}[{i}]')))
+      else:
+        items.append(ctx.engine.fresh_like(ctx, v, f'{base}[{i}]'))
+    c.items = items
+    return c
+
   def setitem(self, ctx, ref, idx, value):
     self.check_write(ctx, ref, 'setitem')
-    if is_z3(idx) or isinstance(idx, SliceV):
-      raise Unsupported('symbolic store into concrete list')
+    if isinstance(idx, SliceV):
+      raise Unsupported('slice store into concrete list')
+    if is_z3(idx):
+      idx = self._concretize(ctx, idx, 'store')
     c = self.clone()
     c.items[idx] = value
     ctx.set_cell(ref.addr, c)
@@ -1048,6 +1076,13 @@ class Ctx:
       return True
     if z3.is_false(simp):
       return False
+    # already decided on this path (syntactically): no fork
+    neg = z3.Not(cond)
+    for x in self.pc:
+      if x.eq(cond):
+        return True
+      if x.eq(neg) or (z3.is_not(cond) and x.eq(cond.arg(0))):
+        return False
     if self.choose(2) == 0:
       self.pc.append(cond)
       return True
